@@ -16,9 +16,15 @@ def sh(cmd, **kw):
 
 
 def main():
-    pid = sys.argv[1]
-    which = sys.argv[2:] or ['A', 'B']
-    src = f'/tmp/mut/{pid}'
+    args = sys.argv[1:]
+    srcroot, suffix = '/tmp/mut', 'ab'
+    if '--src' in args:
+        i = args.index('--src'); srcroot = args[i + 1]; del args[i:i + 2]
+    if '--suffix' in args:
+        i = args.index('--suffix'); suffix = args[i + 1]; del args[i:i + 2]
+    pid = args[0]
+    which = args[1:] or ['A', 'B']
+    src = f'{srcroot}/{pid}'
     meta_all = json.load(open(f'{src}/meta.json'))
     wt = f'/tmp/wt/verify_{pid}'
     sh(f'git -C /repo worktree remove --force {wt}')
@@ -27,7 +33,7 @@ def main():
     head = sh('git -C /repo rev-parse --short HEAD').stdout.strip()
     try:
         for w in which:
-            name = f'{pid}{w.lower()}'
+            name = f'{pid}{suffix["AB".index(w)]}'
             diff, demo = f'{src}/{w}.diff', f'{src}/demo_{w}.py'
             env = f'PYTHONPATH={wt} PYTHONHASHSEED=0'
             clean = sh(f'cd {src} && {env} timeout 600 /venv/bin/python {demo}')
